@@ -91,7 +91,7 @@ CHECKS["C11"] = dict(
 CHECKS["C12"] = dict(
    technique="TLA+ specs AttitudeLoop.tla (configuration lattice with the 'box' made precise, enumerated by TLC) and AttitudeLoopTrace.tla (phase envelope, measurement model, step contracts and non-vacuity as a monitor evaluated by TLC on every line of NDJSON traces recorded from the real launch_sim) - trace validation, code -> spec",
    category="model_checking",
-   text="Each chosen configuration of the TLC lattice (true attitude, gyro bias, initialise-or-zero start, declination/inclination, three rate settings; stratified sample seeded by VERIF_SEED: 12 quick / 160 thorough) is one real 20 s launch_sim run with recording proxies around the estimator equations. TLC consumes the whole history (about 8-14k lines per run): no NaN/exception, accelerometer and magnetometer magnitudes and directions equal to the truth-rotated references to 1e-6, attitude error <= 0.03 rad from 5 s on, every bias component error <= max(0.01, initial/4) from 15 s on, initialisation by the second IMU message, at least one accepted accel and mag correction per second (non-vacuity), plus the C11 step contracts at every step. A self-test corrupts recorded fields / drops lines / truncates a trace and requires rejection.",
+   text="Each chosen configuration of the TLC lattice (true attitude, gyro bias, initialise-or-zero start, declination/inclination, five rate settings incl. magnetometer periods that are not a multiple of the IMU period, zero-state starts with heading errors up to 113 degrees; sample stratified by (cell, init) and by rate setting, seeded by VERIF_SEED: 16 quick / 200 thorough) is one real 20 s launch_sim run with recording proxies around the estimator equations. TLC consumes the whole history (about 8-14k lines per run): no NaN/exception, accelerometer and magnetometer magnitudes and directions equal to the truth-rotated references to 1e-6, attitude error <= 0.03 rad from 5 s on, every bias component error <= max(0.01, initial/4) from 15 s on, initialisation by the second IMU message, at least one accepted accel and mag correction per second (non-vacuity), plus the C11 step contracts at every step. A self-test corrupts recorded fields / drops lines / truncates a trace and requires rejection.",
    design_ref="6/C12",
    note="Monitoring, not prediction: nothing is claimed about configurations that were not executed. Envelope constants are read off the property text, not tuned.",
 )
@@ -121,7 +121,7 @@ CHECKS["C14"] = dict(
 CHECKS["C09"] = dict(
    technique="TLA+ spec Codegen.tla (configuration model: equation set x generator option assignment, pairwise-covering/exhaustive option lattices proven covering by TLC, artefact inventory contract, per-function input-pattern designs) model-checked by TLC; every state drives the repository's own generate_code, the emitted C is parsed, compiled with gcc and compared with the symbolic CasADi function (differential)",
    category="translation_validation",
-   text="The clauses quantified over configurations are decided with the spec: TLC enumerates every (equation set, option assignment) - all 2^n assignments in thorough, a TLC-proven pairwise-covering array plus all single toggles and the default/implicit-default rows in quick - with the expected artefact inventory; the real generator must succeed on every row and emit exactly the shipped functions once each, with the symbolic function's arity, argument names and sparsity. The value clause is a differential test driven by TLC-enumerated input designs (branch-selecting patterns incl. the Alloc tie/saturation cells): 35 compiled C functions vs the symbolic functions, <= 4 ulp and identical NaN pattern, with measured branch coverage (>= 75% of comparison nodes driven both ways).",
+   text="The clauses quantified over configurations are decided with the spec: TLC enumerates every (equation set, option assignment) - all 2^n assignments in thorough, a TLC-proven pairwise-covering array plus all single toggles and the default/implicit-default rows in quick - with the expected artefact inventory; the real generator must succeed on every row and emit exactly the shipped functions once each, with the symbolic function's arity, argument names and sparsity; 'bundle' states call the generic entry point once with several shipped sets (both relative orders of every pair) and require file <key>.c to hold exactly <key>'s functions (invariant BundleOK). The value clause is a differential test driven by TLC-enumerated input designs (branch-selecting patterns incl. the Alloc tie/saturation cells): 35 compiled C functions vs the symbolic functions, <= 4 ulp and identical NaN pattern, with measured branch coverage (>= 75% of comparison nodes driven both ways).",
    design_ref="6/C09, 12",
    note="The spec is a configuration model, not a semantic one: equality of C and symbolic code for ALL inputs and structural matching of the C text are not decided (differential on the enumerated inputs only). Export lists and option keys are extracted from the repository at run time. Built by a sub-task.",
    engine="tlc+codegen-differential",
@@ -147,7 +147,7 @@ CHECKS["C20"] = dict(
    category="model_checking",
    text="TLC proves exactly-once, no-stranger, wrong-type rejection, parameter visibility after the broadcast, logger rows (one per period, non-decreasing time, content = latest delivered) and the lock for all wirings within the bounds (345 k - 2.8 M states per configuration); publication order holds for acyclic relay graphs and, unrestricted, fails only on histories re-entrant on the same topic (InOrderUnlessReentrant proven exhaustively; the counterexample is classified, reproduced on the real classes and listed as a known finding). The estimator guards (no predict with dt <= 0, correction spacing >= dt_min - 1 ms) are model-checked on a 0.5 ms lattice. Conformance: 192 (quick) / 3520 (thorough) simulated behaviours executed on real objects with state compared after every action; 60 / 1500 randomised real executions (dyadic periods, ties, bursts, in-run set_param incl. logger/dt) plus a real Simulator+AttitudeEstimator+Logger graph validated event by event; estimator decision traces under bursts, duplicates and backward timestamps. Self-test: corrupted/truncated traces and six in-memory mutants must be flagged.",
    design_ref="6/C20, 8",
-   note="Known finding: re-entrant same-topic publication reorders delivery (not repaired). Hooks (guarded, add-only, commit in MANIFEST.hooks) are used only to record launch_sim itself; everything else observes through the public API. Not covered: larger wirings beyond the random sample, set-up from inside callbacks, callbacks that raise. Built by a sub-task.",
+   note="Known finding: re-entrant same-topic publication reorders delivery (not repaired). Hooks (guarded, add-only, commit in MANIFEST.hooks) are used only to record launch_sim itself; everything else observes through the public API. Thorough additionally checks liveness under weak fairness without state constraint or VIEW (UrosBusLive.tla: every publish returns, every owed message arrives, simulated time is not Zeno, logger rows keep coming; 713 k states) - a design-level statement with no code binding of its own. Not covered: larger wirings beyond the random sample, set-up from inside callbacks, callbacks that raise. Built by a sub-task.",
 )
 
 CHECKS["C19"] = dict(
